@@ -839,6 +839,10 @@ func (r *vpRunner) genAndRun(g *vpRng, maxOps int, prop string) {
 	case "C07":
 		h.a[4] = g.pick([]int64{1, 2, 100})
 		h.a[5] = g.pick([]int64{1, 2, 3})
+		if g.intn(12) == 0 { // extreme values (uint32 products / shifts)
+			pr := [][2]int64{{65536, 65536}, {2147483648, 2}, {4294967295, 4294967295}, {3000000, 1}, {1, 4294967295}}[g.intn(5)]
+			h.a[4], h.a[5] = pr[0], pr[1]
+		}
 	case "C01", "C02":
 		if g.chance(50) {
 			h.a[3] = 1
@@ -849,6 +853,9 @@ func (r *vpRunner) genAndRun(g *vpRng, maxOps int, prop string) {
 		}
 	case "C08":
 		h.a[3] = 1
+		if g.chance(40) {
+			h.a[4], h.a[5] = 1, 1
+		}
 		if g.chance(60) {
 			h.a[0] = g.pick([]int64{3, 3, 5})
 			h.a[1] = g.pick([]int64{3, 5})
@@ -1020,11 +1027,26 @@ func (r *vpRunner) genAndRun(g *vpRng, maxOps int, prop string) {
 				if r.dead || lp() < 0 {
 					continue
 				}
-				r.apply(vpOp{kind: "P", a: []int64{lp(), 2, 1, -1, 0}, keys: []int{k}}) // falls back
+				bfb := len(r.picks)
+				fbdl := int64(-1)
+				refreshStandin := h.a[4] > 0 && h.a[5] == 1 && g.chance(60)
+				if refreshStandin {
+					fbdl = vpGetNow() + 1000000
+				}
+				r.apply(vpOp{kind: "P", a: []int64{lp(), 2, 1, fbdl, 0}, keys: []int{k}}) // falls back
 				b2 := len(r.picks)
 				r.apply(vpOp{kind: "P", a: []int64{lp(), 3, 1, -1, 0}, keys: []int{k}}) // UNBIND
 				if len(r.picks) > b2 && r.picks[b2].placed && !r.dead {
 					r.apply(vpOp{kind: "D", a: []int64{int64(b2), 0}})
+				}
+				if refreshStandin && len(r.picks) > bfb && r.picks[bfb].placed && !r.dead {
+					// the stand-in turns unresponsive and is refreshed while K is unbound
+					nb := len(r.cc.scs)
+					r.apply(vpOp{kind: "V", a: []int64{h.a[4]*1000000 + 1000001}})
+					r.apply(vpOp{kind: "D", a: []int64{int64(bfb), 2}})
+					if len(r.cc.scs) > nb && !r.dead {
+						r.apply(vpOp{kind: "C", a: []int64{int64(len(r.cc.scs) - 1), 2}})
+					}
 				}
 				if g.chance(50) {
 					// K is now unknown: load the channels unevenly, then use K
